@@ -10,6 +10,7 @@ mod json;
 mod evalu;
 mod conc;
 mod replayt;
+mod nvm;
 
 use std::io::{BufRead, Write};
 
@@ -225,6 +226,7 @@ fn main() {
                 "sbest" => u.sbest(&mut rng, n),
                 "req" => evalu::req(&mut u, &mut rng, n),
                 "meta" => u.meta(&mut rng, n),
+                "nvm" => nvm::generate(&mut u, &mut rng, n),
                 "replay" => {
                     let bin = arg_s(&args, "--bin", "/verif/harness/target-replay/debug/replay");
                     let work = arg_s(&args, "--work", "/verif/.work");
